@@ -42,8 +42,8 @@ def gen_cases(tier, rng):
     cases = []  # (kind, val, ty, cs, icvn)
     thorough = tier == 'thorough'
     # 1. exhaustive over the sign/point/digit alphabet
-    alpha = '-.0159a '
-    maxlen = 6 if thorough else 4
+    alpha = '-.0159a \n'
+    maxlen = 5 if thorough else 4
     for n in range(0, maxlen + 1):
         for tup in itertools.product(alpha, repeat=n):
             v = ''.join(tup)
@@ -99,6 +99,11 @@ def gen_cases(tier, rng):
                 cases.append(('charset', ch, 'ID', cs, icvn))
                 cases.append(('charset', 'AB' + ch + 'C9', 'AN', cs, icvn))
     # 6. every type x odd values (dispatcher)
+    # a valid value followed/preceded by one line break or blank ($ matches before a final newline in re)
+    for v0, ty in (('1', 'N'), ('-10', 'N2'), ('1.325', 'R'), ('.5', 'R'), ('20040229', 'D8'), ('040229', 'D6'), ('200402291200', 'DT'),
+                   ('1200', 'TM'), ('120059', 'TM'), ('20040101-20040131', 'RD8'), ('ABC', 'ID'), ('A B', 'AN')):
+        for pre, post in (('', '\n'), ('', '\r'), ('', '\n\n'), ('\n', ''), ('', ' '), (' ', ''), ('', '\x00'), ('', '\t')):
+            cases.append(('edge-ws', pre + v0 + post, ty, 'E', '00501'))
     odd = ['', ' ', '0', '-0', '1.5', '20040229', '1200', 'ABC', 'abc', '^', '`', '\n', '-', '.', '.5', '5.', '1-2']
     for ty in TYPES:
         for v in odd:
@@ -125,11 +130,11 @@ def classify(kind, v, ty, spec):
 def run(ctx, report):
     rng = random.Random(ctx['seed'])
     cases = gen_cases(ctx['tier'], rng)
-    report.rule = ('exhaustive strings over {- . 0 1 5 9 a space} up to length %d for N/R (TM to 4); all y-m-d over 14 '
+    report.rule = ('exhaustive strings over {- . 0 1 5 9 a space LF} up to length %d for N/R (TM to 4); all y-m-d over 14 '
                    'years x months 0..13 x days 0..32 as D8/DT/RD8; D6 windows; date+HHMM; date ranges with 0..3 hyphens; '
                    'time field boundaries x lengths 0..9; all 256 characters x {B,E} x {00401,00501}; dispatcher types; '
                    'random strings.  A case is non-trivial/distinct by its (value,type,charset,version) tuple; '
-                   'counted distinct tuples.' % (6 if ctx['tier'] == 'thorough' else 4))
+                   'counted distinct tuples.' % (5 if ctx['tier'] == 'thorough' else 4))
     mr = core.ModelRunner()
     reqs_model = [('validation', [v, ty, cs, icvn]) for (_, v, ty, cs, icvn) in cases]
     reqs_spec = [('c13_spec', [v, ty, cs, icvn]) for (_, v, ty, cs, icvn) in cases]
